@@ -66,6 +66,7 @@ func runC07(c *Ctx) {
 	c.check(len(missing) == 0, "CMAP-REGISTRY", "postscript.cidInit", "the 17 CIDInit operators are defined", token.NoPos, fmt.Sprintf("%d operators", n), "CIDInit lacks "+strings.Join(missing, ", "))
 
 	c.cmapTables()
+	c.cmapChoiceRule()
 }
 
 // otherEdgeErr: the PostScript error name returned on the edge of cd's If
